@@ -5,14 +5,52 @@ package main
 import (
 	"bytes"
 	"fmt"
+	"io"
+	"math"
 	"math/bits"
+	"os"
+	"strings"
 
 	"google.golang.org/protobuf/encoding/protowire"
 )
 
 // family "wire": C01 (round trips, sizes) and C02 (scanner) on encoding/protowire.
 
-func init() { Register("wire", famWire) }
+func init() {
+	Register("wire", famWire)
+	// "wirex": exhaustive short byte strings (C02); prints its cases under family "wire"
+	Register("wirex", famWireExh)
+}
+
+// wireArg reports whether the run was started with the extra argument name
+// (props/Cxx.json "args"; the flag parser of main.go stops at the first non-flag).
+func wireArg(name string) bool {
+	for _, a := range os.Args[2:] {
+		if a == name {
+			return true
+		}
+	}
+	return false
+}
+
+// Operations whose Go function is also translated to Gallina by srcmodel (Tier T):
+// every such case is emitted a second time as "go_<op>", which the model driver
+// answers with the *translated* function (Gen/WireGo.v) instead of the spec model.
+var wireGoOps = map[string]bool{
+	"varint": true, "cvarint": true, "fixed32": true, "fixed64": true, "cfixed32": true, "cfixed64": true,
+	"zz": true, "unzz": true, "bool": true, "unbool": true, "etag": true, "dtag": true, "tag": true,
+	"ctag": true, "bytes": true, "cbytes": true, "agroup": true,
+}
+
+// wireNoGo suppresses the go_<op> duplicates (bulk exhaustive enumeration).
+var wireNoGo bool
+
+func wireCase(c *Ctx, op string, ins, obs []string) {
+	c.Case("wire", op, ins, obs)
+	if wireGoOps[op] && !wireNoGo {
+		c.Case("wire", "go_"+op, ins, obs)
+	}
+}
 
 // G-BITS: for every bit length: 2^k-1, 2^k, 2^k+1 and random values of that length.
 func gbits(c *Ctx) uint64 {
@@ -46,13 +84,14 @@ func gbits(c *Ctx) uint64 {
 	}
 }
 
-var interestingNums = []protowire.Number{1, 2, 15, 16, 2047, 2048, 1 << 18, 1<<28 - 1, 1 << 28, 1<<29 - 1}
+// field numbers above MaxValidNumber (2^29-1) up to MaxInt32 are deliberately accepted by the scanner
+var interestingNums = []protowire.Number{1, 2, 15, 16, 2047, 2048, 1 << 18, 1<<28 - 1, 1 << 28, 1<<29 - 1, 1 << 29, 1<<31 - 1}
 
 func gnum(c *Ctx) protowire.Number {
 	if c.Intn(3) == 0 {
 		return interestingNums[c.Intn(len(interestingNums))]
 	}
-	k := 1 + c.Intn(29)
+	k := 1 + c.Intn(31)
 	v := protowire.Number(c.U64() & ((1 << k) - 1))
 	if v < 1 {
 		v = 1
@@ -158,14 +197,26 @@ func mutate(c *Ctx, b []byte) []byte {
 }
 
 func famWire(c *Ctx) {
-	const fam = "wire"
 	// corpus (minimised earlier failures and boundary cases) first
 	for _, v := range []uint64{0, 1, 127, 128, 16383, 16384, 1<<63 - 1, 1 << 63, ^uint64(0)} {
 		wireVarint(c, v, nil)
 	}
 	deepGroups(c)
+	wireCorpus(c)
+	c02 := wireArg("c02") // run for C02: spend the C01-only slots on the scanner
 	for i := 0; i < c.N; i++ {
-		switch i % 12 {
+		k := i % 12
+		if c02 {
+			switch k {
+			case 1:
+				k = 6
+			case 2:
+				k = 8
+			case 3:
+				k = 11
+			}
+		}
+		switch k {
 		case 0:
 			wireVarint(c, gbits(c), c.Bytes(c.Intn(3)))
 		case 1: // fixed
@@ -173,17 +224,17 @@ func famWire(c *Ctx) {
 			suf := c.Bytes(c.Intn(3))
 			b32 := protowire.AppendFixed32(nil, uint32(v))
 			b64 := protowire.AppendFixed64(nil, v)
-			c.Case(fam, "fixed32", []string{HexN(uint64(uint32(v)))}, []string{HexB(b32)})
-			c.Case(fam, "fixed64", []string{HexN(v)}, []string{HexB(b64)})
+			wireCase(c, "fixed32", []string{HexN(uint64(uint32(v)))}, []string{HexB(b32)})
+			wireCase(c, "fixed64", []string{HexN(v)}, []string{HexB(b64)})
 			in32 := append(append([]byte(nil), b32...), suf...)
 			g32, n32 := protowire.ConsumeFixed32(in32)
-			c.Case(fam, "cfixed32", []string{HexB(in32)}, []string{"ok", HexN(uint64(g32)), fmt.Sprint(n32)})
+			wireCase(c, "cfixed32", []string{HexB(in32)}, []string{"ok", HexN(uint64(g32)), fmt.Sprint(n32)})
 			if g32 != uint32(v) || n32 != len(b32) || n32 != protowire.SizeFixed32() {
 				c.PropFail("C01", "fixed32 round trip", HexN(v))
 			}
 			in64 := append(append([]byte(nil), b64...), suf...)
 			g64, n64 := protowire.ConsumeFixed64(in64)
-			c.Case(fam, "cfixed64", []string{HexB(in64)}, []string{"ok", HexN(g64), fmt.Sprint(n64)})
+			wireCase(c, "cfixed64", []string{HexB(in64)}, []string{"ok", HexN(g64), fmt.Sprint(n64)})
 			if g64 != v || n64 != len(b64) || n64 != protowire.SizeFixed64() {
 				c.PropFail("C01", "fixed64 round trip", HexN(v))
 			}
@@ -191,25 +242,25 @@ func famWire(c *Ctx) {
 			tr := in64[:c.Intn(8)]
 			_, nt := protowire.ConsumeFixed64(tr)
 			e, _ := errOrN(nt)
-			c.Case(fam, "cfixed64", []string{HexB(tr)}, []string{e})
+			wireCase(c, "cfixed64", []string{HexB(tr)}, []string{e})
 			c.Stat("op.fixed")
 		case 2: // zigzag, bool
 			x := int64(gbits(c))
 			z := protowire.EncodeZigZag(x)
-			c.Case(fam, "zz", []string{HexZ(x)}, []string{HexN(z)})
-			c.Case(fam, "unzz", []string{HexN(z)}, []string{HexZ(protowire.DecodeZigZag(z))})
+			wireCase(c, "zz", []string{HexZ(x)}, []string{HexN(z)})
+			wireCase(c, "unzz", []string{HexN(z)}, []string{HexZ(protowire.DecodeZigZag(z))})
 			if protowire.DecodeZigZag(z) != x {
 				c.PropFail("C01", "zigzag decode(encode x) != x", HexZ(x))
 			}
 			u := gbits(c)
 			d := protowire.DecodeZigZag(u)
-			c.Case(fam, "unzz", []string{HexN(u)}, []string{HexZ(d)})
+			wireCase(c, "unzz", []string{HexN(u)}, []string{HexZ(d)})
 			if protowire.EncodeZigZag(d) != u {
 				c.PropFail("C01", "zigzag encode(decode u) != u", HexN(u))
 			}
 			bb := c.Bool()
-			c.Case(fam, "bool", []string{Tok(bb)}, []string{HexN(protowire.EncodeBool(bb))})
-			c.Case(fam, "unbool", []string{HexN(u)}, []string{Tok(protowire.DecodeBool(u))})
+			wireCase(c, "bool", []string{Tok(bb)}, []string{HexN(protowire.EncodeBool(bb))})
+			wireCase(c, "unbool", []string{HexN(u)}, []string{Tok(protowire.DecodeBool(u))})
 			if protowire.DecodeBool(protowire.EncodeBool(bb)) != bb {
 				c.PropFail("C01", "bool round trip", Tok(bb))
 			}
@@ -218,7 +269,7 @@ func famWire(c *Ctx) {
 			num := gnum(c)
 			typ := protowire.Type(c.Intn(8))
 			et := protowire.EncodeTag(num, typ)
-			c.Case(fam, "etag", []string{HexN(uint64(num)), HexN(uint64(typ))}, []string{HexN(et)})
+			wireCase(c, "etag", []string{HexN(uint64(num)), HexN(uint64(typ))}, []string{HexN(et)})
 			dn, dt := protowire.DecodeTag(et)
 			if dn != num || dt != typ {
 				c.PropFail("C01", "tag decode(encode) mismatch", HexN(uint64(num)), HexN(uint64(typ)))
@@ -226,22 +277,22 @@ func famWire(c *Ctx) {
 			x := gbits(c)
 			xn, xt := protowire.DecodeTag(x)
 			if xn < 0 {
-				c.Case(fam, "dtag", []string{HexN(x)}, []string{"-1", "0"})
+				wireCase(c, "dtag", []string{HexN(x)}, []string{"-1", "0"})
 			} else {
-				c.Case(fam, "dtag", []string{HexN(x)}, []string{HexN(uint64(xn)), HexN(uint64(xt))})
+				wireCase(c, "dtag", []string{HexN(x)}, []string{HexN(uint64(xn)), HexN(uint64(xt))})
 			}
 			b := protowire.AppendTag(nil, num, typ)
-			c.Case(fam, "tag", []string{HexN(uint64(num)), HexN(uint64(typ))}, []string{HexB(b), HexN(uint64(protowire.SizeTag(num)))})
+			wireCase(c, "tag", []string{HexN(uint64(num)), HexN(uint64(typ))}, []string{HexB(b), HexN(uint64(protowire.SizeTag(num)))})
 			if len(b) != protowire.SizeTag(num) {
 				c.PropFail("C01", "SizeTag != len(AppendTag)", HexN(uint64(num)))
 			}
 			in := append(b, c.Bytes(c.Intn(3))...)
 			cn, ct, n := protowire.ConsumeTag(in)
 			if e, bad := errOrN(n); bad {
-				c.Case(fam, "ctag", []string{HexB(in)}, []string{e})
+				wireCase(c, "ctag", []string{HexB(in)}, []string{e})
 				c.PropFail("C01", "ConsumeTag rejects AppendTag output", HexB(in))
 			} else {
-				c.Case(fam, "ctag", []string{HexB(in)}, []string{"ok", HexN(uint64(cn)), HexN(uint64(ct)), fmt.Sprint(n)})
+				wireCase(c, "ctag", []string{HexB(in)}, []string{"ok", HexN(uint64(cn)), HexN(uint64(ct)), fmt.Sprint(n)})
 				if cn != num || ct != typ || n != len(b) {
 					c.PropFail("C01", "tag round trip", HexB(in))
 				}
@@ -261,7 +312,7 @@ func famWire(c *Ctx) {
 				v = c.Bytes(100 + c.Intn(300))
 			}
 			b := protowire.AppendBytes(nil, v)
-			c.Case(fam, "bytes", []string{HexB(v)}, []string{HexB(b), HexN(uint64(protowire.SizeBytes(len(v))))})
+			wireCase(c, "bytes", []string{HexB(v)}, []string{HexB(b), HexN(uint64(protowire.SizeBytes(len(v))))})
 			bs := protowire.AppendString(nil, string(v))
 			if !bytes.Equal(b, bs) || len(b) != protowire.SizeBytes(len(v)) {
 				c.PropFail("C01", "AppendString/AppendBytes/SizeBytes disagree", HexB(v))
@@ -293,7 +344,7 @@ func famWire(c *Ctx) {
 				body = genField(c, body, 2)
 			}
 			g := protowire.AppendGroup(nil, num, body)
-			c.Case(fam, "agroup", []string{HexN(uint64(num)), HexB(body)}, []string{HexB(g), HexN(uint64(protowire.SizeGroup(num, len(body))))})
+			wireCase(c, "agroup", []string{HexN(uint64(num)), HexB(body)}, []string{HexB(g), HexN(uint64(protowire.SizeGroup(num, len(body))))})
 			if len(g) != protowire.SizeGroup(num, len(body)) {
 				c.PropFail("C01", "SizeGroup != len(AppendGroup)", HexB(g))
 			}
@@ -315,13 +366,16 @@ func famWire(c *Ctx) {
 			typ := protowire.Type(c.Intn(8))
 			n := protowire.ConsumeFieldValue(num, typ, b)
 			if e, bad := errOrN(n); bad {
-				c.Case(fam, "cfv", []string{HexN(uint64(num)), HexN(uint64(typ)), HexB(b)}, []string{e})
+				wireCase(c, "cfv", []string{HexN(uint64(num)), HexN(uint64(typ)), HexB(b)}, []string{e})
 			} else {
-				c.Case(fam, "cfv", []string{HexN(uint64(num)), HexN(uint64(typ)), HexB(b)}, []string{"ok", fmt.Sprint(n)})
+				wireCase(c, "cfv", []string{HexN(uint64(num)), HexN(uint64(typ)), HexB(b)}, []string{"ok", fmt.Sprint(n)})
 			}
 			if n > len(b) {
 				c.PropFail("C02", "ConsumeFieldValue overread", HexB(b))
 			}
+			wirePErr(c, n)
+			wirePErr(c, int(int64(gbits(c))))
+			wirePErr(c, c.Intn(16)-10)
 			c.Stat("op.random")
 		}
 	}
@@ -329,7 +383,7 @@ func famWire(c *Ctx) {
 
 func wireVarint(c *Ctx, v uint64, suf []byte) {
 	b := protowire.AppendVarint(nil, v)
-	c.Case("wire", "varint", []string{HexN(v)}, []string{HexB(b), HexN(uint64(protowire.SizeVarint(v)))})
+	wireCase(c, "varint", []string{HexN(v)}, []string{HexB(b), HexN(uint64(protowire.SizeVarint(v)))})
 	if len(b) != protowire.SizeVarint(v) {
 		c.PropFail("C01", "SizeVarint != len(AppendVarint)", HexN(v))
 	}
@@ -354,12 +408,17 @@ func wireVarint(c *Ctx, v uint64, suf []byte) {
 }
 
 func wireCVarint(c *Ctx, in []byte) {
+	defer func() {
+		if r := recover(); r != nil {
+			c.PropFail("C02", "ConsumeVarint panicked", HexB(in))
+		}
+	}()
 	g, n := protowire.ConsumeVarint(in)
 	if e, bad := errOrN(n); bad {
-		c.Case("wire", "cvarint", []string{HexB(in)}, []string{e})
+		wireCase(c, "cvarint", []string{HexB(in)}, []string{e})
 		c.Stat("cvarint." + e)
 	} else {
-		c.Case("wire", "cvarint", []string{HexB(in)}, []string{"ok", HexN(g), fmt.Sprint(n)})
+		wireCase(c, "cvarint", []string{HexB(in)}, []string{"ok", HexN(g), fmt.Sprint(n)})
 		c.Stat("cvarint.ok")
 	}
 	if n > len(in) {
@@ -375,10 +434,10 @@ func wireCTag(c *Ctx, in []byte) {
 	}()
 	cn, ct, n := protowire.ConsumeTag(in)
 	if e, bad := errOrN(n); bad {
-		c.Case("wire", "ctag", []string{HexB(in)}, []string{e})
+		wireCase(c, "ctag", []string{HexB(in)}, []string{e})
 		c.Stat("ctag." + e)
 	} else {
-		c.Case("wire", "ctag", []string{HexB(in)}, []string{"ok", HexN(uint64(cn)), HexN(uint64(ct)), fmt.Sprint(n)})
+		wireCase(c, "ctag", []string{HexB(in)}, []string{"ok", HexN(uint64(cn)), HexN(uint64(ct)), fmt.Sprint(n)})
 		c.Stat("ctag.ok")
 	}
 	if n > len(in) {
@@ -387,11 +446,16 @@ func wireCTag(c *Ctx, in []byte) {
 }
 
 func wireCBytes(c *Ctx, in []byte) {
+	defer func() {
+		if r := recover(); r != nil {
+			c.PropFail("C02", "ConsumeBytes panicked", HexB(in))
+		}
+	}()
 	g, n := protowire.ConsumeBytes(in)
 	if e, bad := errOrN(n); bad {
-		c.Case("wire", "cbytes", []string{HexB(in)}, []string{e})
+		wireCase(c, "cbytes", []string{HexB(in)}, []string{e})
 	} else {
-		c.Case("wire", "cbytes", []string{HexB(in)}, []string{"ok", HexB(g), fmt.Sprint(n)})
+		wireCase(c, "cbytes", []string{HexB(in)}, []string{"ok", HexB(g), fmt.Sprint(n)})
 	}
 	if n > len(in) {
 		c.PropFail("C02", "ConsumeBytes overread", HexB(in))
@@ -405,8 +469,14 @@ func wireCField(c *Ctx, in []byte, mustOK bool) {
 		}
 	}()
 	num, typ, n := protowire.ConsumeField(in)
+	if gn, gok := wireGField(in); gok != (n >= 0) || (gok && gn != n) {
+		c.PropFail("C02", "ConsumeField disagrees with the wire grammar", HexB(in))
+	}
+	if n < -6 {
+		c.PropFail("C02", "ConsumeField returned an undocumented error code", HexB(in))
+	}
 	if e, bad := errOrN(n); bad {
-		c.Case("wire", "cfield", []string{HexB(in)}, []string{e})
+		wireCase(c, "cfield", []string{HexB(in)}, []string{e})
 		c.Stat("cfield." + e)
 		if mustOK {
 			c.PropFail("C02", "well-formed field rejected", HexB(in))
@@ -415,7 +485,7 @@ func wireCField(c *Ctx, in []byte, mustOK bool) {
 			c.PropFail("C02", "ParseError(nil) for negative length", HexB(in))
 		}
 	} else {
-		c.Case("wire", "cfield", []string{HexB(in)}, []string{"ok", HexN(uint64(num)), HexN(uint64(typ)), fmt.Sprint(n)})
+		wireCase(c, "cfield", []string{HexB(in)}, []string{"ok", HexN(uint64(num)), HexN(uint64(typ)), fmt.Sprint(n)})
 		c.Stat("cfield.ok")
 		if mustOK && n != len(in) {
 			c.PropFail("C02", "well-formed field not consumed exactly", HexB(in))
@@ -430,16 +500,16 @@ func wireCGroup(c *Ctx, num protowire.Number, in []byte) {
 	ins := []string{HexN(uint64(num)), HexB(in)}
 	defer func() {
 		if r := recover(); r != nil {
-			c.Case("wire", "cgroup", ins, []string{"panic"})
+			wireCase(c, "cgroup", ins, []string{"panic"})
 			c.PropFail("C02", "ConsumeGroup panicked", ins...)
 		}
 	}()
 	v, n := protowire.ConsumeGroup(num, in)
 	if e, bad := errOrN(n); bad {
-		c.Case("wire", "cgroup", ins, []string{e})
+		wireCase(c, "cgroup", ins, []string{e})
 		c.Stat("cgroup." + e)
 	} else {
-		c.Case("wire", "cgroup", ins, []string{"ok", HexB(v), fmt.Sprint(n)})
+		wireCase(c, "cgroup", ins, []string{"ok", HexB(v), fmt.Sprint(n)})
 		c.Stat("cgroup.ok")
 	}
 	if n > len(in) {
@@ -459,5 +529,179 @@ func deepGroups(c *Ctx) {
 		}
 		wireCField(c, b, false)
 		c.Stat("deepgroups")
+	}
+}
+
+// wirePErr: ParseError maps a code to the class of the returned error value.
+func wirePErr(c *Ctx, n int) {
+	err := protowire.ParseError(n)
+	class := 99
+	switch {
+	case err == nil:
+		class = 0
+	case err == io.ErrUnexpectedEOF:
+		class = 1
+	case strings.Contains(err.Error(), "invalid field number"):
+		class = 2
+	case strings.Contains(err.Error(), "overflow"):
+		class = 3
+	case strings.Contains(err.Error(), "reserved wire type"):
+		class = 4
+	case strings.Contains(err.Error(), "end group"):
+		class = 5
+	case strings.Contains(err.Error(), "parse error"):
+		class = 6
+	}
+	c.Case("wire", "perr", []string{HexZ(int64(n))}, []string{fmt.Sprint(class)})
+	if (n >= 0) != (err == nil) {
+		c.PropFail("C02", "ParseError nil-ness does not match the sign of the code", HexZ(int64(n)))
+	}
+	if n < 0 && n >= -5 && class != -n {
+		c.PropFail("C02", "ParseError maps a documented code to the wrong error", HexZ(int64(n)))
+	}
+}
+
+// ---- an independent recogniser of the C02 wire grammar (the property's own predicate) ----
+
+// wireGVarint: length of the varint at the start of b per the grammar (<= 10 bytes,
+// 10th byte <= 1), its value, and whether there is one.
+func wireGVarint(b []byte) (v uint64, n int, ok bool) {
+	for i := 0; i < len(b) && i < 10; i++ {
+		x := b[i]
+		if i == 9 {
+			if x > 1 {
+				return 0, 0, false
+			}
+			return v | uint64(x)<<63, 10, true
+		}
+		v |= uint64(x&0x7f) << (7 * uint(i))
+		if x < 0x80 {
+			return v, i + 1, true
+		}
+	}
+	return 0, 0, false
+}
+
+func wireGTag(b []byte) (num uint64, typ int, n int, ok bool) {
+	v, n, ok := wireGVarint(b)
+	if !ok || v>>3 < 1 || v>>3 > math.MaxInt32 {
+		return 0, 0, 0, false
+	}
+	return v >> 3, int(v & 7), n, true
+}
+
+// wireGValue: number of bytes of the value of wire type typ at the start of b; dep = group levels allowed.
+func wireGValue(num uint64, typ int, b []byte, dep int) (int, bool) {
+	switch typ {
+	case 0:
+		_, n, ok := wireGVarint(b)
+		return n, ok
+	case 1:
+		return 8, len(b) >= 8
+	case 5:
+		return 4, len(b) >= 4
+	case 2:
+		m, n, ok := wireGVarint(b)
+		if !ok || m > uint64(len(b)-n) {
+			return 0, false
+		}
+		return n + int(m), true
+	case 3:
+		if dep <= 0 {
+			return 0, false
+		}
+		off := 0
+		for {
+			num2, typ2, n, ok := wireGTag(b[off:])
+			if !ok {
+				return 0, false
+			}
+			off += n
+			if typ2 == 4 {
+				return off, num2 == num
+			}
+			m, ok := wireGValue(num2, typ2, b[off:], dep-1)
+			if !ok {
+				return 0, false
+			}
+			off += m
+		}
+	}
+	return 0, false
+}
+
+func wireGField(b []byte) (int, bool) {
+	num, typ, n, ok := wireGTag(b)
+	if !ok {
+		return 0, false
+	}
+	m, ok := wireGValue(num, typ, b[n:], protowire.DefaultRecursionLimit+1)
+	return n + m, ok
+}
+
+// wireCorpus: minimised boundary inputs (one per grammar rule / error code).
+func wireCorpus(c *Ctx) {
+	for _, h := range []string{
+		"", "00", "08", "0801", "08ff", "0880", "08808080808080808080", "08ffffffffffffffffff01", "08ffffffffffffffffff02",
+		"0800ff", "0d01020304", "0d010203", "090102030405060708", "0901020304050607", "0a00", "0a0161", "0a0261",
+		"0aff01", "0affffffffffffffffff01", "0b0c", "0b14", "0b0b0c0c", "0b0b0c14", "0b8c00", "0b8c8000", "0b8c808080808080808000",
+		"0c", "0e", "0f", "0b", "0b08", "0b0801", "0b08010c", "f8ffffff3f00", "f8ffffff7f00", "80808080800100", "f8ffffffff0000",
+		"ffffffffffffffffff01", "0b0a0361620c0c", "0b0a03610c0c0c", "1b1c", "1b0c",
+	} {
+		b := ParseHexB("x" + h)
+		wireCField(c, b, false)
+		wireCTag(c, b)
+		wireCVarint(c, b)
+		wireCBytes(c, b)
+		wireCGroup(c, 1, b)
+		if len(b) > 0 {
+			wireCGroup(c, protowire.Number(b[0]>>3), b[1:])
+		}
+	}
+	for n := -8; n <= 2; n++ {
+		wirePErr(c, n)
+	}
+	wirePErr(c, math.MinInt64)
+	wirePErr(c, math.MaxInt64)
+}
+
+// famWireExh ("wirex"): every byte string of length <= c.N (2 quick, 3 thorough) through
+// ConsumeField / ConsumeTag / ConsumeVarint / ConsumeBytes / ConsumeGroup.  Length-3 strings
+// are partitioned over the 16 thorough shards by first byte (shard seeds differ by 7919 = 15 mod 16).
+func famWireExh(c *Ctx) {
+	maxLen := c.N
+	if maxLen > 3 {
+		maxLen = 3
+	}
+	one := func(b []byte) {
+		wireNoGo = len(b) >= 2 // the translated functions see every string of length <= 1
+		wireCField(c, b, false)
+		if len(b) <= 2 {
+			wireCTag(c, b)
+			wireCBytes(c, b)
+			wireCGroup(c, 1, b)
+		}
+		if len(b) <= 1 {
+			wireCVarint(c, b)
+		}
+	}
+	one(nil)
+	c.Stat("exh.len0")
+	for a := 0; a < 256 && maxLen >= 1; a++ {
+		one([]byte{byte(a)})
+		c.Stat("exh.len1")
+		for b := 0; b < 256 && maxLen >= 2; b++ {
+			one([]byte{byte(a), byte(b)})
+			c.Stat("exh.len2")
+			if maxLen >= 3 && uint64(a%16) == c.Seed%16 {
+				for d := 0; d < 256; d++ {
+					one([]byte{byte(a), byte(b), byte(d)})
+				}
+				c.StatN("exh.len3", 256)
+			}
+		}
+	}
+	if maxLen >= 3 {
+		c.Stat(fmt.Sprintf("exh.len3.residue%d", c.Seed%16))
 	}
 }
